@@ -5,6 +5,7 @@ Property theorems only; helper lemmas go to `Proofs/Window.lean`.
 -/
 import DnsVerif.Proofs.Window
 import DnsVerif.Props.C19b
+import DnsVerif.Generated.Facts
 
 namespace DnsVerif.Props.C19
 open DnsVerif.Window DnsVerif.Spec.Stats
@@ -32,6 +33,35 @@ theorem window_keeps_live (life : Nat) (evs : List Ev) (h : Monotone evs) (v : I
   unfold expected
   rw [List.mem_filterMap]
   exact ⟨.add v t, hm, by simp [hl]⟩
+
+/-! ### the window operations are atomic
+
+`window_spec` is about histories of *whole* operations. It speaks about the code only if each of
+`cleaner`'s tick, `Add` and `Samples` is one critical section of the window's mutex: the trace of
+lock operations and accesses to `samples` in each body is re-extracted from `metrics/swindow.go`
+on every run. -/
+
+/-- a body is one critical section: exactly one exclusive acquisition, no shared one, and every
+access to the protected field happens while it is held -/
+def oneSection (tr : List String) : Bool :=
+  let rec go (tr : List String) (held deferred : Bool) (acqs : Nat) : Bool :=
+    match tr with
+    | [] => acqs == 1 && (held == deferred)     -- released at the end iff the unlock was deferred
+    | "Lock" :: r => !held && go r true deferred (acqs + 1)
+    | "deferUnlock" :: r => held && !deferred && go r held true acqs
+    | "Unlock" :: r => held && !deferred && go r false deferred acqs
+    | "R" :: r => held && go r held deferred acqs
+    | "W" :: r => held && go r held deferred acqs
+    | _ => false                                   -- RLock/RUnlock or anything unknown
+  go tr false false 0
+
+theorem window_ops_atomic :
+    oneSection Generated.swindow_cleaner_trace = true ∧ oneSection Generated.swindow_Add_trace = true ∧
+    oneSection Generated.swindow_Samples_trace = true := by decide
+
+/-- the split cleaner (scan on a snapshot under the shared lock, swap under the exclusive lock) is
+not one critical section -/
+example : oneSection ["RLock", "R", "RUnlock", "R", "R", "Lock", "W", "Unlock"] = false := by decide
 
 /-- min, max and average are those of the samples: min and max are attained and bound every
 sample, the average is the truncated quotient of the sum and lies between them -/
